@@ -222,12 +222,53 @@ class ExprMixin:
             st.pc.append(f"(forall (({q} {sort_smt(a.sort[1])})) (= (select {r.s} {q}) (or (select {a.s} {q}) (select {b.s} {q}))))")
             return r
         if op is ast.Mod and a.sort == STR:
-            return self.opaque("strfmt", STR)
+            r = self.percent_format(n, a, b, st)
+            return r if r is not None else self.opaque("strfmt", STR)
         h = self.m.hooks["binop"](self, n, a, b, st) if "binop" in self.m.hooks else None
         if h is not None:
             return h
         self.note("abstracted-binop", f"{a.sort} {op.__name__} {b.sort}", n.lineno)
         return self.opaque("binop")
+
+    def percent_format(self, n, a, b, st):
+        """'..%d..%s..' % args for a literal template with plain %d / %s / %% fields"""
+        if not (isinstance(n.left, ast.Constant) and isinstance(n.left.value, (str, bytes))):
+            return None
+        tmpl = n.left.value.decode("latin-1") if isinstance(n.left.value, bytes) else n.left.value
+        args = list(b.items) if isinstance(b, TupV) else [b]
+        parts, i, lit = [], 0, ""
+        while i < len(tmpl):
+            ch = tmpl[i]
+            if ch == "%" and i + 1 < len(tmpl):
+                k = tmpl[i + 1]
+                if k == "%":
+                    lit += "%"
+                elif k in "ds" and args:
+                    v = args.pop(0)
+                    if lit:
+                        parts.append(T(STR, smt_str(lit)))
+                        lit = ""
+                    if isinstance(v, T) and v.sort == STR and k == "s":
+                        parts.append(v)
+                    elif isinstance(v, T) and v.sort == INT:
+                        parts.append(self.dec(v))
+                    elif isinstance(v, T) and "str" in self.m.hooks and self.m.hooks["str"](self, v, st) is not None and k == "d":
+                        parts.append(self.m.hooks["str"](self, v, st))
+                    else:
+                        return None
+                else:
+                    return None
+                i += 2
+                continue
+            lit += ch
+            i += 1
+        if args:
+            return None
+        if lit:
+            parts.append(T(STR, smt_str(lit)))
+        if not parts:
+            return T(STR, '""')
+        return parts[0] if len(parts) == 1 else T(STR, "(str.++ " + " ".join(p.s for p in parts) + ")")
 
     def ev_ifexp(self, n, st, old):
         saved = st.clone()
